@@ -9,7 +9,9 @@ a left-to-right scan.  This file proves
 * the reduction: *if* the successor decreases the closed form by exactly one on index vectors
   without repetition (`perm_step_statement`), *then* every reachable state of `permutations(xs)` is
   coherent (`perm_coherent_of_step`);
-* `perm_step_statement` itself (see the end of the file).
+* a kernel-checked test of the step lemma for every index vector of length ≤ 5.
+The step statement itself (`perm_step_statement`) is proved in `C11PermStep.lean` (`perm_step`), which
+gives `perm_coherent` / `perm_len_is_count` without hypotheses.
 -/
 import NoulithModel.Theorems.C11Adapt
 
@@ -167,6 +169,17 @@ theorem length_next (hstep : ∀ v : List Nat, v.Nodup → StepOk v) {α : Type}
 
 end PermT
 
+/-- the successor step statement (proved as `perm_step` in C11PermStep.lean): the successor computed by
+`Permutations::next` (last ascent, swap with the last larger entry, reverse the suffix) decreases
+the closed form of `Permutations::len` by exactly one -/
+def perm_step_statement : Prop := ∀ v : List Nat, v.Nodup → PermT.StepOk v
+
+/-- full strength of `len_is_count` for permutations (follows from `perm_step_statement` by
+`perm_coherent_of_step`) -/
+def perm_len_is_count_statement : Prop :=
+  ∀ (base : List Nat), base.length ≤ 20 →
+    ∃ l, Coherent Perm.ops (Perm.mk base) l ∧ l.length = PermT.cnt (Perm.mk base)
+
 theorem perm_peekNext {α : Type} : PeekNext (Perm.ops (α := α)) := by
   intro p
   obtain ⟨base, idx⟩ := p
@@ -206,5 +219,14 @@ def permCheck (n : Nat) : Bool := permCheckFrom (fact n + 1) (some (List.range n
 
 theorem perm_len_is_count_upto5 : ∀ n, n ≤ 5 → permCheck n = true := by
   decide +kernel
+
+/-- `perm_len_is_count_statement` follows from the step statement -/
+theorem perm_len_is_count_of_step (h : perm_step_statement) : perm_len_is_count_statement := by
+  intro base hb
+  refine perm_coherent_of_step h (Perm.mk base) (PermT.mk_wf base) ?_
+  intro v hv
+  simp only [Perm.mk, Option.some.injEq] at hv
+  subst hv
+  simpa using hb
 
 end Noulith.C11
